@@ -106,6 +106,35 @@ fn c13_scenario(op: Op, explore: bool) -> Scenario {
     s
 }
 
+/// C13 scenarios beyond the plain shapes (also looked up by name for replays)
+fn c13_special_plans(tier: Tier) -> Vec<Plan> {
+    let mut plans = Vec::new();
+    // replies that carry a binary part at later positions of a typed list: every component gets
+    // the frame - fields and payload - of its own command
+    {
+        let mut s = Scenario::new("C13-mixed-tuple-with-binary-frames", vec![CallerProg { ops: vec![Op::MixedList], pipeline: false }, CallerProg { ops: vec![Op::Raw("cmd B1".into())], pipeline: false }]);
+        s.server.per_uri = vec![
+            ("pa".to_string(), PicSource::Data(picture(300), Some("image/png".into())), PicSource::Empty),
+            ("pb".to_string(), PicSource::Data(picture(41), None), PicSource::Empty),
+        ];
+        s.notify_names = vec!["player"];
+        s.notify_budget = 1;
+        s.split_budget = 1;
+        plans.push(Plan { scn: s, bound: tier.pick(2, 3) });
+    }
+    // an empty typed list is empty whatever state the connection is in (also after it has ended)
+    {
+        let mut s = Scenario::new(
+            "C13-empty-list-around-connection-end",
+            vec![CallerProg { ops: vec![Op::ProbeVec(vec![]), Op::ProbeVec(vec![])], pipeline: false }, CallerProg { ops: vec![Op::Raw("cmd B1".into())], pipeline: false }],
+        );
+        s.faults = vec![FaultKind::Close, FaultKind::Garbage];
+        s.fault_budget = 1;
+        plans.push(Plan { scn: s, bound: tier.pick(3, 4) });
+    }
+    plans
+}
+
 /// raw list rendering: every way to build a list of n commands from new / command / add / extend
 fn c13_raw(viol: &mut Violations) -> (u64, u64) {
     let mut cases = 0u64;
@@ -193,6 +222,7 @@ pub fn run_c13(tier: Tier) -> i32 {
         s.split_budget = 1;
         plans.push(Plan { scn: s, bound: tier.pick(3, 4) });
     }
+    plans.extend(c13_special_plans(tier));
     // the same lists over a transport that takes only a few bytes per write call
     for (n, chunk) in [(1usize, 1usize), (2, 1), (3, 7), (5, 16), (8, 40)] {
         plans.push(Plan { scn: crate::props::loopprops::with_short_writes(c13_scenario(Op::ProbeVec(probe_ids(n.min(5))), false), chunk), bound: tier.pick(1, 2) });
@@ -257,22 +287,32 @@ enum ArtExpect {
 }
 
 /// the requests a correct client makes and the result it returns, from the server configuration
-fn art_expectation(embedded: &PicSource, cover: &PicSource, limit: usize) -> (Vec<(String, usize)>, ArtExpect) {
+fn art_expectation(embedded: &PicSource, cover: &PicSource, limit: usize, fail_after: Option<(usize, u64)>) -> (Vec<(String, usize)>, ArtExpect) {
     let mut reqs = Vec::new();
-    let chunks = |name: &str, len: usize, reqs: &mut Vec<(String, usize)>| {
+    // Err(code): the server failed a request in the middle of the load
+    let chunks = |name: &str, len: usize, reqs: &mut Vec<(String, usize)>| -> Result<(), u64> {
         let mut off = 0;
+        let mut served = 0usize;
         loop {
             reqs.push((name.to_string(), off));
+            if let Some((after, code)) = fail_after {
+                if served >= after {
+                    return Err(code);
+                }
+            }
+            served += 1;
             off += limit.min(len - off);
             if off >= len {
-                break;
+                return Ok(());
             }
         }
     };
     match embedded {
         PicSource::Data(d, m) => {
-            chunks("readpicture", d.len(), &mut reqs);
-            return (reqs, ArtExpect::Some(d.clone(), m.clone()));
+            return match chunks("readpicture", d.len(), &mut reqs) {
+                Ok(()) => (reqs, ArtExpect::Some(d.clone(), m.clone())),
+                Err(code) => (reqs, ArtExpect::Err(code)),
+            };
         }
         PicSource::Ack(c) if *c != 5 => {
             reqs.push(("readpicture".into(), 0));
@@ -281,10 +321,10 @@ fn art_expectation(embedded: &PicSource, cover: &PicSource, limit: usize) -> (Ve
         _ => reqs.push(("readpicture".into(), 0)),
     }
     match cover {
-        PicSource::Data(d, _) => {
-            chunks("albumart", d.len(), &mut reqs);
-            (reqs, ArtExpect::Some(d.clone(), None))
-        }
+        PicSource::Data(d, _) => match chunks("albumart", d.len(), &mut reqs) {
+            Ok(()) => (reqs, ArtExpect::Some(d.clone(), None)),
+            Err(code) => (reqs, ArtExpect::Err(code)),
+        },
         PicSource::Empty => {
             reqs.push(("albumart".into(), 0));
             (reqs, ArtExpect::None)
@@ -308,7 +348,7 @@ pub fn oracle_c17(scn: &Scenario, t: &Trace, st: &mut ExploreStats) -> Vec<Viola
                 Some((_, e, c)) => (e.clone(), c.clone()),
                 None => (scn.server.embedded.clone(), scn.server.cover.clone()),
             };
-            let (want_reqs, want_res) = art_expectation(&emb, &cov, scn.server.binary_limit);
+            let (want_reqs, want_res) = art_expectation(&emb, &cov, scn.server.binary_limit, scn.server.fail_after_chunks);
             st.count("album_art_loads_checked");
             // requests as the server saw them
             let mut got_reqs: Vec<(String, usize)> = Vec::new();
@@ -484,6 +524,24 @@ fn c17_grid(tier: Tier) -> Vec<Scenario> {
             }
         }
     }
+    // the server fails in the middle of a load (after k chunks): the error is the result, whatever
+    // was received before it
+    for k in 1..=3usize {
+        for code in [2u64, 50, 52] {
+            let mut s = c17_scenario(&format!("C17-embedded-size10-limit3-fails-after-{k}-chunks-ack{code}"), PicSource::Data(picture(10), Some("image/png".into())), PicSource::Data(picture(4), None), 3, false);
+            s.server.fail_after_chunks = Some((k, code));
+            v.push(s);
+            let mut s = c17_scenario(&format!("C17-cover-size10-limit3-fails-after-{k}-chunks-ack{code}"), PicSource::Ack(5), PicSource::Data(picture(10), None), 3, false);
+            s.server.fail_after_chunks = Some((k, code));
+            v.push(s);
+        }
+    }
+    // the optional MIME type is given with the first chunk only
+    for (size, limit) in [(10usize, 3usize), (2, 1), (9000, 4096)] {
+        let mut s = c17_scenario(&format!("C17-embedded-size{size}-limit{limit}-mime-in-first-chunk-only"), PicSource::Data(picture(size), Some("image/webp".into())), PicSource::Empty, limit, false);
+        s.server.mime_only_in_first_chunk = true;
+        v.push(s);
+    }
     v.push(c17_scenario("C17-neither", PicSource::Empty, PicSource::Empty, 8192, false));
     v.push(c17_scenario("C17-neither-readpicture-unknown", PicSource::Ack(5), PicSource::Empty, 8192, false));
     // every server error code of MPD's enum, on either command
@@ -650,6 +708,21 @@ fn c18_scenario(name: &str, connect: ConnectMode, server_pw: Option<&str>, ack_c
     s
 }
 
+/// passwords at the edges of the argument encoder and of "is there a password at all": empty,
+/// blank-edged, quote / backslash, non-ASCII space. The server compares the decoded argument with
+/// its password byte for byte, so a client that trims, skips or re-escapes it is rejected.
+fn c18_special_plans(tier: Tier) -> Vec<Plan> {
+    let mut plans = Vec::new();
+    for (k, pw) in ["", " ", "pw ", " pw", "tab\t", "nbsp\u{a0}", "ideographic\u{3000}", "q\"uote d", "back\\slash d", "cr\r"].into_iter().enumerate() {
+        plans.push(Plan { scn: c18_scenario(&format!("C18-edge-password-{k}-accepted"), ConnectMode::Password(pw.into()), Some(pw), 3, false, tier), bound: 1 });
+        plans.push(Plan { scn: c18_scenario(&format!("C18-edge-password-{k}-opt-accepted"), ConnectMode::PasswordOpt(Some(pw.into())), Some(pw), 3, false, tier), bound: 1 });
+    }
+    // an empty password is still a password: sent first, and its rejection is reported
+    plans.push(Plan { scn: c18_scenario("C18-empty-password-rejected", ConnectMode::Password("".into()), Some("right"), 3, false, tier), bound: tier.pick(2, 3) });
+    plans.push(Plan { scn: c18_scenario("C18-empty-password-opt-rejected", ConnectMode::PasswordOpt(Some("".into())), Some("right"), 4, false, tier), bound: 2 });
+    plans
+}
+
 pub fn run_c18(tier: Tier) -> i32 {
     let mut ctx = Ctx::new("C18", tier, "model_checking");
     ctx.assume("greeting validity is defined by mpdref::wire::ref_greeting: `OK MPD ` + non-empty valid UTF-8 up to LF; bytes in the same read after the greeting are not examined");
@@ -672,6 +745,7 @@ pub fn run_c18(tier: Tier) -> i32 {
     }
     plans.push(Plan { scn: c18_scenario("C18-password-opt-rejected", ConnectMode::PasswordOpt(Some("wrong".into())), Some("right"), 3, false, tier), bound: 2 });
     plans.push(Plan { scn: c18_scenario("C18-password-rejected-faults", ConnectMode::Password("wrong".into()), Some("right"), 3, true, tier), bound: 2 });
+    plans.extend(c18_special_plans(tier));
     let (mut cov, mut viol) = run_plans(
         &ctx,
         plans,
@@ -717,6 +791,7 @@ fn all_scenarios(tier: Tier) -> Vec<Scenario> {
         v.push(crate::props::loopprops::with_short_writes(c13_scenario(Op::ProbeVec(probe_ids(n.min(5))), false), chunk));
         v.push(crate::props::loopprops::with_short_writes(c13_scenario(Op::ProbeTuple(probe_ids(n)), false), chunk));
     }
+    v.extend(c13_special_plans(tier).into_iter().map(|p| p.scn));
     v.extend(c17_grid(tier));
     v.extend(c17_explore_scenarios());
     let pw = "pw x\"y";
@@ -732,6 +807,7 @@ fn all_scenarios(tier: Tier) -> Vec<Scenario> {
     }
     v.push(c18_scenario("C18-password-opt-rejected", ConnectMode::PasswordOpt(Some("wrong".into())), Some("right"), 3, false, tier));
     v.push(c18_scenario("C18-password-rejected-faults", ConnectMode::Password("wrong".into()), Some("right"), 3, true, tier));
+    v.extend(c18_special_plans(tier).into_iter().map(|p| p.scn));
     v
 }
 
